@@ -7,7 +7,7 @@ if [ -n "$(git status --porcelain --untracked-files=no)" ]; then echo "/repo not
 git apply /verif/seeded/$id/patch.diff || { echo "$id: patch does not apply"; exit 2; }
 cd /verif
 for c in "$@"; do
-  timeout 1500 bin/check $c > /tmp/seeded_$id_$c.log 2>&1; rc=$?
-  echo "$id $c exit=$rc $(grep -c '^VIOLATION' /tmp/seeded_$id_$c.log) violation lines; $(grep '^VIOLATION' /tmp/seeded_$id_$c.log | head -2 | cut -c1-200 | tr '\n' '|')"
+  timeout 1500 bin/check $c > /tmp/seeded_${id}_${c}.log 2>&1; rc=$?
+  echo "$id $c exit=$rc $(grep -c '^VIOLATION' /tmp/seeded_${id}_${c}.log) violation lines; $(grep '^VIOLATION' /tmp/seeded_${id}_${c}.log | head -2 | cut -c1-200 | tr '\n' '|')"
 done
 git -C /repo checkout -- .
